@@ -14,6 +14,10 @@ from .kernel import mk_bytes, bsum
 from .simfs import SimFile, apply_faults
 
 
+class ActorDidNotTerminate(Exception):
+    """an actor (or the interleaved run) hit the wall-clock backstop: non-termination is C07's ground"""
+
+
 class SoloWriterFailed(Exception):
     """the real writer raised on a well-formed workload while preparing a reader's image"""
 
@@ -361,10 +365,12 @@ def _inter(scn):
 
 def run_pristine(scn):
     """-> (solo results, interleaved results, stats); raises SoloWriterFailed"""
-    from .forkrun import in_fork, ForkError
+    from .forkrun import in_fork, ForkError, ForkTimeout
     try:
         solo = [in_fork(_solo_one, scn, i) for i in range(len(scn["actors"]))]
         inter, stats = in_fork(_inter, scn)
+    except ForkTimeout:
+        raise ActorDidNotTerminate()
     except ForkError as e:
         if e.args and e.args[0] == "SoloWriterFailed":
             raise SoloWriterFailed(*e.args[1])
